@@ -294,6 +294,17 @@ func (p *Profile) Next(r *rand.Rand, cfg Cfg, v *View) Op {
 			}
 			ids := subset(r, live, 1)
 			return Op{Kind: "delete", Branch: b, IDs: append(ids, ids[0])}
+		case "dupvec":
+			// a vector operation listing an id twice
+			if cand := SetSub(live, v.Vecs[b]); len(cand) > 0 && r.Intn(3) > 0 {
+				id := pick(r, cand)
+				return Op{Kind: "addvec", Branch: b, IDs: []int{id, id}}
+			}
+			if len(v.Vecs[b]) == 0 {
+				continue
+			}
+			id := pick(r, v.Vecs[b])
+			return Op{Kind: "delvec", Branch: b, IDs: []int{id, id}}
 		case "badid":
 			// an id that is not live on this branch: dead, foreign or unknown
 			var id int
